@@ -91,6 +91,29 @@ fn explore(api: &Api, setting_ix: usize, pi: usize, tier: Tier, seed: u64, cx: &
                 cx.violate(&k, w);
             }
         }
+        // the login's two client steps each take the password: a login that uses the wrong one in only ONE of them is a
+        // wrong-password login too (first 8 attempts of every item)
+        if qi < 8 {
+            for (variant, p_start, p_finish) in [("right-at-start/wrong-at-finish", &base.pw, pw2), ("wrong-at-start/right-at-finish", pw2, &base.pw)] {
+                cx.begin_case(json!({"registered_pw": desc(&base.pw), "login_pw": desc(pw2), "variant": variant, "setting": setting_ix}));
+                if !cx.state(&(setting_ix, pi, pw2, variant)) {
+                    continue;
+                }
+                cx.path();
+                cx.edges += 3;
+                let r = (|| -> Result<Result<(), E>, E> {
+                    let (ke1, cl) = api.login_start(&mut t, p_start)?;
+                    let (ke2, _) = api.slogin_start(&mut t, &Blob::n(&setup), Some(&Blob::n(&reg.file)), &Blob::n(&ke1), &base.cid, o(&base.ctx), o(&base.idu), o(&base.ids))?;
+                    Ok(api.login_finish(&Blob::n(&cl), p_finish, &Blob::n(&ke2), o(&base.ctx), o(&base.idu), o(&base.ids), None).map(|_| ()))
+                })();
+                match r {
+                    Ok(Err(E::InvalidLogin)) => cx.outcome("rejected-InvalidLoginError"),
+                    Ok(Err(e)) => cx.violate(&format!("login_finish/wrong-error/{}", variant), format!("a login with the wrong password in one client step ({}) is rejected with {:?}, not InvalidLoginError", variant, e)),
+                    Ok(Ok(())) => cx.violate(&format!("login_finish/ACCEPTED/{}", variant), format!("a login with the wrong password in one client step ({}) succeeds", variant)),
+                    Err(e) => cx.violate("honest-step/login", format!("{:?}", e)),
+                }
+            }
+        }
     }
     cx.sample(json!({"suite": api.name(), "registered_pw": desc(&base.pw), "login_pws": pws.iter().map(|p| desc(p)).collect::<Vec<_>>(), "setting": Params::describe(&base)}));
 }
